@@ -52,17 +52,16 @@ Theorem c18_nocache_max_attained : forall p mn mx,
   accepted_length p = Some (mn, mx) -> sat p = true -> mx < MAXU -> exists w, accepts p w /\ len w = mx.
 Proof. exact nocache_max_attained. Qed.
 
-(* ---- cache transparency: the table never changes the minimum, and never changes a finite maximum.
-   What is not proved (hence _partial): that the table never turns a finite maximum into "infinite" or back;
-   the check compares both walks on every compiled program it sees. *)
+(* ---- cache transparency: the memo table changes neither bound. For the maximum no side condition is needed: a finite
+   maximum (of either walk) comes from a finite, Fail-free unfolding of the program, and on such a tree neither walk can
+   meet an alternation of its path again, so both compute the tree's value; otherwise both report "infinite". *)
 Theorem c18_cache_transparent_min : forall p r rc, sat p = true ->
   accepted_length p = Some r -> accepted_length_cached p = Some rc -> fst rc = fst r.
 Proof. exact cache_transparent_min. Qed.
 
-Theorem c18_cache_transparent_max_partial : forall p r rc, sat p = true ->
-  accepted_length p = Some r -> accepted_length_cached p = Some rc ->
-  snd r < MAXU -> snd rc < MAXU -> snd rc = snd r.
-Proof. exact cache_transparent_max_finite. Qed.
+Theorem c18_cache_transparent_max : forall p r rc,
+  accepted_length p = Some r -> accepted_length_cached p = Some rc -> snd rc = snd r.
+Proof. exact cache_transparent_max. Qed.
 
 (* ---- ConstantSuffix: every accepted word ends with the computed suffix *)
 Theorem c18_suffix_sound : forall p s w,
